@@ -110,7 +110,8 @@ fn parse_flag(s: &str) -> Result<Value, ParseError> {
 }
 
 fn parse_raw_char(s: &str) -> Result<char, ParseError> {
-    let mut chars = s.chars();
+    let t = value::percent_decode(s).map_err(|_| ParseError::InvalidCharacter)?;
+    let mut chars = t.chars();
 
     if let Some(c) = chars.next()
         && chars.next().is_none()
